@@ -54,6 +54,7 @@ pub fn expand_type_support(input: &DeriveInput) -> Result<TokenStream> {
             let mut member_dynamic_sample_seq = Vec::new();
 
             let mut next_auto_id = 0;
+            let mut used_member_ids: Vec<u32> = Vec::new();
             for (member_index, member) in xtypes_struct.fields.iter().enumerate() {
                 let index = member_index as u32;
                 let struct_member_attributes = get_structure_member_attributes(member)?;
@@ -87,6 +88,22 @@ pub fn expand_type_support(input: &DeriveInput) -> Result<TokenStream> {
                         }
                     }?
                 };
+
+                // Member ids must be unique within the type (XTypes 7.2.2.4.4.4.6)
+                if let syn::Expr::Lit(syn::ExprLit {
+                    lit: syn::Lit::Int(lit_int),
+                    ..
+                }) = &member_id
+                {
+                    let id_value = lit_int.base10_parse::<u32>()?;
+                    if used_member_ids.contains(&id_value) {
+                        return Err(syn::Error::new(
+                            member.span(),
+                            format!("member id {id_value} is already used by another member of this type"),
+                        ));
+                    }
+                    used_member_ids.push(id_value);
+                }
 
                 if !struct_member_attributes.hashid {
                     if let syn::Expr::Lit(syn::ExprLit {
